@@ -596,6 +596,16 @@ def _run_cell2(args):
     except Exception as e:  # unknown surrogate names never get here (constructor rejects first)
         rec["decl"] = decl_of(spec, problem, None)
         rec["decl_note"] = f"{type(e).__name__}: {e}"
+    if cell.get("design", "random") != "random" and not rec["not_accepted"]:
+        try:
+            from deephyper.hpo._problem import convert_to_skopt_space
+            from deephyper.skopt.utils import cook_initial_point_generator
+
+            sp = convert_to_skopt_space(problem.space, surrogate_model=surrogate)
+            pts = cook_initial_point_generator(cell["design"]).generate(sp.dimensions, cell["n_initial"], random_state=0)
+            rec["design_len"] = len(pts)
+        except Exception:
+            rec["design_len"] = cell["n_initial"]
     rec.pop("problem", None)
     # make everything JSON-able / picklable
     for r in rec["rounds"]:
@@ -658,9 +668,10 @@ def session_request(cell, decl, rec, univ=None):
            "rounds": rounds}
     if cell.get("design", "random") != "random":
         # the points of a pre-computed initial design are handed out first, in order: the first
-        # n_initial proposals *are* the design (observed, not predicted)
+        # L proposals *are* the design (observed, not predicted); L = number of points the
+        # generator makes for this space (the grid design can make fewer than n_initial)
         flat = [x for r in rec["rounds"] for x in r["X"]]
-        req["initSamples"] = [enc_cfg(x) for x in flat[: cell["n_initial"]]]
+        req["initSamples"] = [enc_cfg(x) for x in flat[: rec.get("design_len", cell["n_initial"])]]
     if univ is not None:
         req["univ"] = [enc_cfg(u) for u in univ]
     return req
